@@ -233,6 +233,18 @@ func drive(p *Prop, tier string, seed uint64) int {
 					mu.Unlock()
 					return
 				}
+				// A worker that was killed from outside (exit -1, nothing fatal on its stderr) may be the kernel's out-of-memory
+				// killer at work for another process, or an operator: the case is run once more on its own. If it ends, the kill
+				// had nothing to do with it: the shard is run again in full and a note says so; if it dies again, it is the case.
+				if r.exit == -1 && class == "worker died (exit -1)" && attempt < 3 {
+					solo := runShard(p, tier, seed, s, nshards, dir, no, nil, wall)
+					if !solo.crashed && !solo.timedOut {
+						mu.Lock()
+						driveNotes = append(driveNotes, fmt.Sprintf("shard %d was killed from outside while on case %d, which ends normally on its own; shard re-run", s, no))
+						mu.Unlock()
+						continue
+					}
+				}
 				key := "fatal|" + strings.ReplaceAll(class, " ", "_") + "|" + site
 				mu.Lock()
 				if v := extra[key]; v != nil {
@@ -448,6 +460,9 @@ func loadFindings() []finding {
 	return out
 }
 
+// driveNotes are remarks of the driver that are neither violations nor reasons for an inconclusive verdict.
+var driveNotes []string
+
 func conclude(p *Prop, tier string, seed uint64, nshards int, m *Merged, inconclusive []string, wall float64, writeEvidence bool) int {
 	known := map[string]string{}
 	for _, f := range loadFindings() {
@@ -502,6 +517,9 @@ func conclude(p *Prop, tier string, seed uint64, nshards int, m *Merged, inconcl
 		if len(inconclusive) > 0 {
 			cov["inconclusive"] = inconclusive
 		}
+		if len(driveNotes) > 0 {
+			cov["notes"] = driveNotes
+		}
 		ev := map[string]any{
 			"property_id": p.ID, "tier": tier, "seed": seed, "level": p.Level, "coverage": cov,
 			"assumptions": p.Assumptions, "wall_s": wall, "violations": nviol,
@@ -512,6 +530,9 @@ func conclude(p *Prop, tier string, seed uint64, nshards int, m *Merged, inconcl
 			fmt.Fprintln(os.Stderr, "write evidence:", err)
 			return ExitInconclusive
 		}
+	}
+	for _, n := range driveNotes {
+		fmt.Printf("NOTE: %s\n", n)
 	}
 	fmt.Printf("%s %s seed=%d: evaluations=%d distinct_nontrivial=%d violations=%d wall=%.1fs\n", p.ID, tier, seed, m.Evals, m.Distinct, nviol, wall)
 	if nviol > 0 {
